@@ -27,10 +27,13 @@ def run(ctx, report):
     r_gd = report.rule("R08-guards", floor=100, what="a component longer than its field raises the error class of that component")
     r_er = report.rule("R08-errors", floor=100, what="arbitrary component texts end in a value or a library exception")
     r_va = report.rule("R08-valid", floor=3, what="generate builds through from_bban with validation on; unknown country / no positions raise library errors")
-    bad = {"place": 0, "guard": 0, "err": 0}
     foreign = {}
     regs = ctx.facts.algorithm_table()
-    for cc in countries:
+
+    def country_body(cc, rules):
+        r_pl, r_gd, r_er = rules["R08-place"], rules["R08-guards"], rules["R08-errors"]
+        bad = {"place": 0, "guard": 0, "err": 0}
+        local = []
         fields = country_fields(reg, cc)
         st = struct_positions(reg, cc)
         n = reg.countries[cc]["bban_length"]
@@ -118,16 +121,24 @@ def run(ctx, report):
             for e in o.events:
                 if e["kind"] == "partial" and e.get("exc") == name:
                     wit = e.get("witness")
-            site = foreign.setdefault((name, where), {"countries": [], "witness": wit, "msg": o.value.args[0] if o.value.args else ""})
+            local.append((name, where, wit if isinstance(wit, (str, int, type(None))) else repr(wit), str(o.value.args[0]) if o.value.args else ""))
+        return local
+
+    from ..par import replay, run_recorded
+    real = {"R08-place": r_pl, "R08-guards": r_gd, "R08-errors": r_er}
+    for cc, (recs, local) in zip(countries, run_recorded(list(real), country_body, countries)):
+        replay(real, recs, cap=6)
+        for name, where, wit, msg in local:
+            site = foreign.setdefault((name, where), {"countries": [], "witness": wit, "msg": msg})
             site["countries"].append(cc)
     for (name, where), site in sorted(foreign.items()):
         ccs = site["countries"]
         r_er.finding(f"generate:{name}@{where}", f"IBAN.generate with an arbitrary component text raises {name} at {where} ({site['msg']}) for {len(ccs)} countr{'y' if len(ccs) == 1 else 'ies'} "
                      f"({', '.join(ccs[:8])}{', ...' if len(ccs) > 8 else ''}) — not a library exception", where,
                      witness={"country": ccs[0], "offending character / value": site["witness"]})
-    for k, rule in (("place", r_pl), ("guard", r_gd), ("err", r_er)):
-        if bad[k] > 4:
-            rule.samples.append({"further findings suppressed": bad[k] - 4})
+    for rule in (r_pl, r_gd, r_er):
+        if getattr(rule, "suppressed", 0):
+            rule.samples.append({"further findings suppressed": rule.suppressed})
     # unknown country / no positions
     res = h.from_components("XX", bank_code="1", account_code="1")
     r_va.instance({"unknown country": res[1].name if res[0] == "exc" else res[1]})
